@@ -90,10 +90,13 @@ FieldsPrograms ==
      : <<s1, s2>> \in {p \in Slots \X Slots : p[1] = p[2] \/ p[1][1] # p[2][1]}}
 
 \* ---- seeded sample of the full cross product ------------------------------
-Pick(q, k, a, b) == q[((a * k + b * Seed) % Len(q)) + 1]
+\* program k: a number derived from k and the seed, read as a mixed-radix numeral whose digits index the grids
+\* (so the fields vary independently of each other)
+Hk(k) == k * 7919 + (Seed % 9973) * 104729
+At(q, h) == q[(h % Len(q)) + 1]
 \* three programs out of four draw from the values without a separator / with well-typed numbers and hashes only:
 \* once such values are refused at start-up (fixes of F15a, F15b, F15d) a program containing one ends there
-VersionAdm == SelectSeq(VersionSeq, LAMBDA v : ~Attr(v).sep)
+VersionAdm == SelectSeq(VersionSeq, LAMBDA v : ~Attr(v).sep /\ v # "1.0\r")
 BuildAdm   == SelectSeq(BuildSeq, LAMBDA b : b \in {"42597", "0", "007"})
 KeyAdm     == << <<>>, <<H3>>, <<HU>> >>
 PathAdm    == SelectSeq(PathSeq, LAMBDA p : p = <<>> \/ ~Attr(p[1]).sep)
@@ -101,13 +104,16 @@ HostAdm    == SelectSeq(HostSeq, LAMBDA h : ~Attr(h).sep)
 CfgPathAdm == SelectSeq(CfgPathSeq, LAMBDA h : ~Attr(h).sep)
 SampleProgram(k) ==
   LET adm == k % 4 # 0
-      b == [Base EXCEPT !.version = Pick(IF adm THEN VersionAdm ELSE VersionSeq, k, 7, 3),
-                        !.build = Pick(IF adm THEN BuildAdm ELSE BuildSeq, k, 11, 5),
-                        !.keyring = Pick(IF adm THEN KeyAdm ELSE KeySeq, k, 13, 7), !.pc = Pick(PcSeq, k, 17, 11),
-                        !.bc = Pick(BcSeq, k, 19, 13), !.cdn_path = Pick(IF adm THEN PathAdm ELSE PathSeq, k, 23, 17),
-                        !.product = IF adm THEN "wow" ELSE Pick(ProductSeq, k, 29, 19)]
-      c == [hosts |-> Pick(IF adm THEN HostAdm ELSE HostSeq, k, 31, 23),
-            path |-> Pick(IF adm THEN CfgPathAdm ELSE CfgPathSeq, k, 37, 29)]
+      qv == IF adm THEN VersionAdm ELSE VersionSeq   qb == IF adm THEN BuildAdm ELSE BuildSeq
+      qk == IF adm THEN KeyAdm ELSE KeySeq           qp == IF adm THEN PathAdm ELSE PathSeq
+      qh == IF adm THEN HostAdm ELSE HostSeq         qc == IF adm THEN CfgPathAdm ELSE CfgPathSeq
+      qn == IF adm THEN <<"wow">> ELSE ProductSeq
+      h1 == Hk(k)                 h2 == h1 \div Len(qv)      h3 == h2 \div Len(qp)      h4 == h3 \div Len(qb)
+      h5 == h4 \div Len(qk)       h6 == h5 \div Len(PcSeq)   h7 == h6 \div Len(qh)      h8 == h7 \div Len(qc)
+      h9 == h8 \div Len(BcSeq)
+      b == [Base EXCEPT !.version = At(qv, h1), !.cdn_path = At(qp, h2), !.build = At(qb, h3), !.keyring = At(qk, h4),
+                        !.pc = At(PcSeq, h5), !.bc = At(BcSeq, h8), !.product = At(qn, h9)]
+      c == [hosts |-> At(qh, h6), path |-> At(qc, h7)]
   IN Prog("sample", c, <<b>>, IF Tier = "quick" THEN QueriesFor(b.product, {"version", "cdn_path"}) ELSE AllQueries(b.product))
 SamplePrograms == {SampleProgram(k) : k \in 1..NSample}
 
